@@ -51,6 +51,7 @@ type Join struct {
 	Acts    []JAct       `json:"acts"`
 	Cycles  int          `json:"cycles"` // additional create/close cycles over the long-lived base controllers
 	Bufsiz  int          `json:"bufsiz,omitempty"` // EventBufsiz of the run (0 = 100)
+	SrcCancelAtStep int  `json:"src_cancel_at_step,omitempty"` // > 0: the join is attached at once and the SOURCE base's context is cancelled that many steps later (around its readiness): the join must stay open
 	OwnCtx  bool         `json:"own_ctx,omitempty"` // the join is built with a context of its own that ends right after construction (a set-up helper with defer cancel()); the bases live on
 	CloseDst bool        `json:"close_dst"` // finally close the destination base while a join is alive: the join must go down with it (C11 for joins)
 	Sim     SimCfg       `json:"sim"`
@@ -133,6 +134,8 @@ type joinEnv struct {
 	sc            *Join
 	ctx           context.Context
 	jctx          context.Context // the context handed to the join constructors
+	srcCtx        context.Context // the source base has a context of its own (it can die alone)
+	srcCancel     context.CancelFunc
 	log           logutil.Log
 	src, mid, dst *world.Server
 	bases         []baseCtrl
@@ -226,7 +229,7 @@ func (e *joinEnv) setup() {
 	midObjs := func() []world.Spec { return e.view(e.mid, 1) }
 	switch sc.Kind {
 	case "service":
-		s, err := service.BuildController(e.ctx, e.log, e.src)
+		s, err := service.BuildController(e.srcCtx, e.log, e.src)
 		fail(err)
 		e.bases = append(e.bases, s)
 		d := podBase()
@@ -252,7 +255,7 @@ func (e *joinEnv) setup() {
 			return selectBy(fn(objs...), "pod", dstObjs())
 		}
 	case "rc":
-		s, err := replicationcontroller.BuildController(e.ctx, e.log, e.src)
+		s, err := replicationcontroller.BuildController(e.srcCtx, e.log, e.src)
 		fail(err)
 		e.bases = append(e.bases, s)
 		d := podBase()
@@ -278,7 +281,7 @@ func (e *joinEnv) setup() {
 			return selectBy(fn(objs...), "pod", dstObjs())
 		}
 	case "rs":
-		s, err := replicaset.BuildController(e.ctx, e.log, e.src)
+		s, err := replicaset.BuildController(e.srcCtx, e.log, e.src)
 		fail(err)
 		e.bases = append(e.bases, s)
 		d := podBase()
@@ -304,7 +307,7 @@ func (e *joinEnv) setup() {
 			return selectBy(fn(objs...), "pod", dstObjs())
 		}
 	case "deployment":
-		s, err := deployment.BuildController(e.ctx, e.log, e.src)
+		s, err := deployment.BuildController(e.srcCtx, e.log, e.src)
 		fail(err)
 		e.bases = append(e.bases, s)
 		d := podBase()
@@ -330,7 +333,7 @@ func (e *joinEnv) setup() {
 			return selectBy(fn(objs...), "pod", dstObjs())
 		}
 	case "daemonset":
-		s, err := daemonset.BuildController(e.ctx, e.log, e.src)
+		s, err := daemonset.BuildController(e.srcCtx, e.log, e.src)
 		fail(err)
 		e.bases = append(e.bases, s)
 		d := podBase()
@@ -356,7 +359,7 @@ func (e *joinEnv) setup() {
 			return selectBy(fn(objs...), "pod", dstObjs())
 		}
 	case "statefulset":
-		s, err := statefulset.BuildController(e.ctx, e.log, e.src)
+		s, err := statefulset.BuildController(e.srcCtx, e.log, e.src)
 		fail(err)
 		e.bases = append(e.bases, s)
 		d := podBase()
@@ -382,7 +385,7 @@ func (e *joinEnv) setup() {
 			return selectBy(fn(objs...), "pod", dstObjs())
 		}
 	case "job":
-		s, err := job.BuildController(e.ctx, e.log, e.src)
+		s, err := job.BuildController(e.srcCtx, e.log, e.src)
 		fail(err)
 		e.bases = append(e.bases, s)
 		d := podBase()
@@ -408,7 +411,7 @@ func (e *joinEnv) setup() {
 			return selectBy(fn(objs...), "pod", dstObjs())
 		}
 	case "ingress-service":
-		s, err := ingress.BuildController(e.ctx, e.log, e.src)
+		s, err := ingress.BuildController(e.srcCtx, e.log, e.src)
 		fail(err)
 		e.bases = append(e.bases, s)
 		d, err := service.BuildController(e.ctx, e.log, e.dst)
@@ -436,7 +439,7 @@ func (e *joinEnv) setup() {
 			return selectBy(fn(objs...), "service", dstObjs())
 		}
 	case "ingress-pods":
-		s, err := ingress.BuildController(e.ctx, e.log, e.src)
+		s, err := ingress.BuildController(e.srcCtx, e.log, e.src)
 		fail(err)
 		e.bases = append(e.bases, s)
 		m, err := service.BuildController(e.ctx, e.log, e.mid)
@@ -622,6 +625,50 @@ func (e *joinEnv) oneJoin(acts []JAct, cycle int) {
 	}
 }
 
+// sourceDies: the join is attached while the bases are still starting and the
+// source base alone is shut down at a drawn scheduler step (before, at or
+// after its readiness).  A join is a clone of its DESTINATION: losing the
+// source must not close it, and must not touch the destination.
+func (e *joinEnv) sourceDies() {
+	e.jctx = e.ctx
+	rv, err := e.mk()
+	if err != nil {
+		detsim.Fail("api-error", "creating the join over starting controllers: %v", err)
+	}
+	detsim.AtStep(detsim.Steps()+e.sc.SrcCancelAtStep, "join-source-cancel", func() {
+		detsim.Count("probe:join-source-cancelled-early")
+		e.srcCancel()
+	})
+	for i := 0; i < 8; i++ {
+		time.Sleep(50 * time.Millisecond)
+		detsim.Settle()
+	}
+	e.srcCancel() // (if the step was never reached)
+	detsim.Settle()
+	if !detsim.IsClosed(e.bases[0].Done()) {
+		detsim.Fail("shutdown-not-cascaded", "the source controller's context was cancelled but it is still running")
+	}
+	dst := e.bases[len(e.bases)-1]
+	if detsim.IsClosed(dst.Done()) {
+		detsim.Fail("shutdown-spread", "the source controller died and took the destination controller with it")
+	}
+	if detsim.IsClosed(rv.done()) {
+		detsim.Fail("shutdown-spread", "join(%s): the source controller died and the join result closed itself although neither it nor its destination was closed", e.sc.Kind)
+	}
+	if _, err := rv.list(); err != nil {
+		detsim.Fail("survivor-not-functional", "join(%s): Cache().List() of the join result after the source died: %v", e.sc.Kind, err)
+	}
+	rv.close()
+	if !world.WaitClosed(rv.done(), time.Millisecond) {
+		detsim.Fail("hang:Close", "closing the join result after its source died did not complete\n%s", dumpLive())
+	}
+	for _, b := range e.bases {
+		b.Close()
+	}
+	detsim.Settle()
+	checkNoLeak()
+}
+
 func specsOfObjs(objs []metav1.Object) []world.Spec {
 	var out []world.Spec
 	for _, o := range objs {
@@ -641,7 +688,12 @@ func runJoin(sci interface{}) {
 	var cancel context.CancelFunc
 	e.ctx, cancel = context.WithCancel(logutil.NewContext(context.Background(), e.log))
 	defer cancel()
+	e.srcCtx, e.srcCancel = context.WithCancel(e.ctx)
 	e.setup()
+	if sc.SrcCancelAtStep > 0 {
+		e.sourceDies()
+		return
+	}
 	e.oneJoin(sc.Acts, 0)
 	for c := 1; c <= sc.Cycles; c++ {
 		e.oneJoin(nil, c)
@@ -840,6 +892,9 @@ func genJoin(g GenCtx, kind string, overrun bool) *Join {
 		return sc
 	}
 	sc.OwnCtx = rng.Intn(4) == 0
+	if rng.Intn(8) == 0 {
+		sc.SrcCancelAtStep = 1 + rng.Intn(pickInt(rng, 60, 200, 500))
+	}
 	sc.CloseDst = rng.Intn(3) == 0
 	if rng.Intn(3) == 0 {
 		sc.Cycles = 1 + rng.Intn(20)
